@@ -85,3 +85,42 @@ Example C04_nonvacuous :
   bus_mapping_for_bank lorom (bank_of 98304) = Ok m /\ mask_ok m /\ in_window m 98304 /\
   addr_add lorom 98304 40000 = Ok 171072.
 Proof. cbv zeta. repeat split; try reflexivity. left; reflexivity. unfold in_window; cbn; discriminate. Qed.
+
+(** The generic advance laws above assume [covers b m]: EVERY bank of the mapping's range is owned
+    by it.  The built-in HiROM ROM mapping does not satisfy that (its banks 0x7E/0x7F are re-assigned
+    to the RAM mapping: [C04_hirom_not_covers]), so here are the same laws under ownership of just
+    the bank sub-interval the advance moves in — which HiROM 0x40-0x7D and its whole mirror satisfy,
+    for the specification bus and, per run, for the live bus. *)
+From A816 Require Import Proofs.CoversSub.
+Theorem C04_advance_sub : forall b a n m lo hi,
+  covers_sub b m lo hi -> mask_ok m -> m_writable m = false -> in_window m a ->
+  lo <= bank_of a <= hi ->
+  (lo - m_first m) * m_mask m <= spec_offset m a + n < (hi - m_first m + 1) * m_mask m ->
+  let a' := spec_address m (spec_offset m a + n) in
+  addr_add b a n = Ok a' /\ addr_physical b a' = Ok (Some (spec_offset m a + n)) /\
+  in_window m a' /\ lo <= bank_of a' <= hi.
+Proof. exact bus_advance_sub. Qed.
+Theorem C04_add_0_sub : forall b a m lo hi,
+  covers_sub b m lo hi -> mask_ok m -> m_writable m = false -> in_window m a ->
+  lo <= bank_of a <= hi -> addr_add b a 0 = Ok a.
+Proof. exact bus_add_0_sub. Qed.
+Theorem C04_add_add_sub : forall b a n1 n2 m lo hi a1,
+  covers_sub b m lo hi -> mask_ok m -> m_writable m = false -> in_window m a -> lo <= bank_of a <= hi ->
+  (lo - m_first m) * m_mask m <= spec_offset m a + n1 < (hi - m_first m + 1) * m_mask m ->
+  (lo - m_first m) * m_mask m <= spec_offset m a + (n1 + n2) < (hi - m_first m + 1) * m_mask m ->
+  addr_add b a n1 = Ok a1 -> addr_add b a1 n2 = addr_add b a (n1 + n2).
+Proof. exact bus_add_add_sub. Qed.
+Theorem C04_hirom_not_covers : ~ covers hirom m_hi.
+Proof. exact hirom_not_covers. Qed.
+Theorem C04_hirom_covers_sub : covers_sub hirom m_hi 64 125 /\ covers hirom m_hi_mirror.
+Proof. exact (conj hirom_covers_sub hirom_covers_mirror). Qed.
+Theorem C04_hirom_advance : forall a n, 64 <= bank_of a <= 125 -> 0 <= spec_offset m_hi a + n < 62 * 65536 ->
+  let a' := spec_address m_hi (spec_offset m_hi a + n) in
+  addr_add hirom a n = Ok a' /\ addr_physical hirom a' = Ok (Some (spec_offset m_hi a + n)) /\ 64 <= bank_of a' <= 125.
+Proof. exact hirom_advance. Qed.
+(** What the code does when an advance leaves the owned banks: the arithmetic of the SOURCE mapping,
+    accepted as soon as the resulting bank is mapped by anything (0x7DFFFF + 1 = 0x7E0000, RAM). *)
+Theorem C04_advance_any : forall b a n m,
+  bus_mapping_for_bank b (bank_of a) = Ok m -> mask_ok m -> m_writable m = false -> in_window m a ->
+  addr_add b a n = get_address b (spec_address m (spec_offset m a + n)).
+Proof. exact bus_advance_any. Qed.
